@@ -11,6 +11,8 @@ import NutsModel.Facts.C06
 import NutsProofs.Lemmas.C06
 import NutsModel.C06.Framing
 import NutsProofs.Lemmas.C06Framing
+import NutsModel.C06.Shelf
+import NutsProofs.Lemmas.C06Shelf
 
 namespace Nuts.C06.Props
 open Nuts Nuts.C06
@@ -679,5 +681,70 @@ example : isJWSSerialization [32, 9, 0xC2, 0xA0, 0xE2, 0x80, 0x83, 123] = true :
 example : jsonStart [101, 51, 48, 46, 81, 81, 46, 81, 81] = false := by decide
 
 end FramingBytes
+
+
+/-! ### Deepening round 2026-09-28 — the bytes in the store (dag.go: clocks / documents / metadata shelves, NutsModel/C06/Shelf.lean) -/
+
+section StoreBytes
+open Nuts.C06.Shelf
+
+/-- BYTE-LEVEL `dag.add` REFINES `graphAdd`: on a store holding the abstract state `s`, adding a fresh transaction writes exactly
+    the bytes that hold `graphAdd s tx` (clock index entry appended, `tx_num`+1 as 8 bytes, `lc_high` as 4 bytes, `head_ref` only
+    when the clock is a new maximum or 0) and is refused exactly when `graphAdd` refuses (a second root, read off the bytes under key 0) -/
+theorem store_bytes_refine_graph_add {st : Store} {s : St} (h : Refines st s) (tx : Tx)
+    (hfresh : hashBytes tx.ref ∉ st.docs) (hr0 : tx.ref ≠ 0) (hr : tx.ref < 256 ^ hashSize)
+    (hc : tx.clock < 256 ^ 4) (hh : s.lcHigh < 256 ^ 4) (hn : s.count + 1 < 256 ^ 8) :
+    match graphAdd s tx with
+    | .ok s' => ∃ st', dagAdd st (hashBytes tx.ref) tx.clock tx.prevs.isEmpty = .ok st' ∧ Refines st' s'
+    | .err e => dagAdd st (hashBytes tx.ref) tx.clock tx.prevs.isEmpty = .err e
+    | .panic _ => False :=
+  dagAdd_refines h tx hfresh hr0 hr hc hh hn
+
+/-- `parseHashList ∘ appendHashList`: appending one ref to a whole number of refs parses back to the old refs and the new one -/
+theorem hash_list_append_parses {l h : List Nat} (hl : l.length % hashSize = 0) (hh : h.length = hashSize) :
+    parseHashList (appendHashList l h) = parseHashList l ++ [h] := parseHashList_append hl hh
+
+/-- THE CLOCKS SHELF DECODES TO THE DAG: under every clock value the bytes hold exactly the refs of the stored transactions with that
+    clock, each once, in admission order; and `getRoots(lc) != nil` — the root-uniqueness check of `addSingle` — is true exactly when a
+    stored transaction has clock 0 -/
+theorem clock_shelf_decodes (txs : List Tx) (hn : (refsOf txs).Nodup) (hb : ∀ t ∈ txs, t.ref < 256 ^ hashSize) (c : Nat) :
+    refsAt (buildClocks txs) c = ((txs.filter (fun t => t.clock = c)).reverse.map (fun t => hashBytes t.ref)) ∧
+    rootsNonNil (buildClocks txs) = hasRoot txs :=
+  ⟨refsAt_build txs (nodup_hashBytes hn hb) c, roots_build txs⟩
+
+/-- FindBetweenLC READS EVERY STORED TRANSACTION, for ALL offer histories: the range scan of `visitBetweenLC` stops at the first
+    missing clock value (`stopAtNil`) — but a reachable DAG skips none (every non-root transaction sits one above a stored prev), so
+    over the bytes of the store the scan visits exactly the refs of the stored transactions with `a ≤ clock < b` -/
+theorem find_between_lc_reads_every_stored_tx (cfg : Cfg) (b64 : String → Bool) (env : Env) (subs : List Sub) (os : List Offer) :
+    let s := os.foldl (offerStep cfg b64 env subs) {}
+    (∀ t ∈ s.txs, t.ref < 256 ^ hashSize) →
+    ∀ a b h, h ∈ visitBetweenLC (buildClocks s.txs) a b ↔ ∃ t ∈ s.txs, hashBytes t.ref = h ∧ a ≤ t.clock ∧ t.clock < b := by
+  intro s hb a b h
+  obtain ⟨hn, hl, _⟩ := dag_inv cfg b64 env subs os
+  refine mem_visit (nodup_hashBytes hn hb) (nogap_of_links ?_) a b h
+  intro t ht
+  obtain ⟨_, h0, h1, _⟩ := hl t ht
+  by_cases hp : t.prevs = []
+  · exact Or.inl (h0 hp)
+  · obtain ⟨u, hu, _, hc⟩ := h1 hp
+    exact Or.inr ⟨u, hu, hc⟩
+
+/-- with a skipped clock value the scan is NOT complete (why the DAG invariant is needed): refs filed under clocks 0 and 2 only -/
+theorem range_scan_stops_at_a_gap :
+    let sh := indexClockValue (indexClockValue [] 0 (hashBytes 1)) 2 (hashBytes 2)
+    refsAt sh 2 = [hashBytes 2] ∧ visitBetweenLC sh 0 3 = [hashBytes 1] := by decide
+
+/-- big-endian counters and 32-byte refs read back as written (`bytesToClock`, `bytesToCount`, `hash.FromSlice`) -/
+theorem counters_read_back (n v : Nat) : ofBe (be n v) = v % 256 ^ n ∧ (be n v).length = n := ⟨ofBe_be n v, be_length n v⟩
+
+/-- non-vacuity: a root, a child and a grandchild through the byte-level `dagAdd`; the store refines the abstract state, the scan finds all -/
+example : (buildStore [⟨3, "", 0, "", true, "", 0, 0, [2], [], 2⟩, ⟨2, "", 0, "", true, "", 0, 0, [1], [], 1⟩, ⟨1, "", 0, "", true, "", 0, 0, [], [], 0⟩]).md
+    = [("tx_num", be 8 3), ("head_ref", hashBytes 3), ("lc_high", be 4 2)] := by decide
+example : dagAdd (buildStore [⟨1, "", 0, "", true, "", 0, 0, [], [], 0⟩]) (hashBytes 5) 0 true = .err "root-exists" := by decide
+example : visitBetweenLC (buildClocks [⟨3, "", 0, "", true, "", 0, 0, [2], [], 1⟩, ⟨2, "", 0, "", true, "", 0, 0, [1], [], 1⟩, ⟨1, "", 0, "", true, "", 0, 0, [], [], 0⟩]) 0 5
+    = [hashBytes 1, hashBytes 2, hashBytes 3] := by decide
+example : parseHashList (hashBytes 7 ++ [1, 2, 3]) = [hashBytes 7] ∧ parseHashListNonNil [1, 2, 3] = true ∧ parseHashList [1, 2, 3] = [] := by decide
+
+end StoreBytes
 
 end Nuts.C06.Props
